@@ -33,10 +33,10 @@ Inductive dtev :=
 
 Definition tev_event (s : st) (t : tev) : option event :=
   match t with
-  | TIntroduce n b io _ => Some (EIntroduce n b io)
+  | TIntroduce n b io _ _ => Some (EIntroduce n b io)
   | TMergeStart file groups => Some (EMergeStart file (map (fun g => (fst g, map fst (snd g))) groups))
-  | TMergeFinish news _ => option_map EMergeFinish (find_merge news (inflight s) 0)
-  | TPersist ids _ => Some (EPersist ids)
+  | TMergeFinish news _ _ => option_map EMergeFinish (find_merge news (inflight s) 0)
+  | TPersist ids _ _ => Some (EPersist ids)
   end.
 
 Definition st_eqb_root (a b : st) : bool := proj_eqb (root a) (project (root b)).
